@@ -288,15 +288,15 @@ Proof.
   - inversion H; subst cs m'; clear H. apply ser_run_one in R as [R1 R2].
     rewrite (st_step_mem _ _ _ R1) in R2. simpl in R2. rewrite EM in R2.
     destruct (tindex (TPat p) mem) as [i|] eqn:EI; [|discriminate]. inversion R2; subst.
-    apply (run_load ph K (map mt mem) C i (mt (TPat p))). apply tindex_nth. exact EI.
+    apply (run_load ph K _ C i (mt (TPat p))). apply tindex_nth. exact EI.
   - destruct (pcore p mem) as [[cs0 m0]|] eqn:EC; [|discriminate].
     destruct (inS p).
     + inversion H; subst cs m'; clear H.
       apply ser_run_app_inv in R as (t1 & s1 & b1 & b2 & R1 & R2 & ->).
       apply ser_run_one in R2 as [_ R2]. simpl in R2. inversion R2; subst.
-      eapply runs_app; [eapply HC; eassumption|].
+      eapply runs_app; [eapply HC; first [eassumption | reflexivity]|].
       rewrite map_app. simpl map. apply (run_save ph K (map mt m0) C (TPat (ms p))).
-    + inversion H; subst cs m'; clear H. eapply HC; eassumption.
+    + inversion H; subst cs m'; clear H. eapply HC; first [eassumption | reflexivity].
 Qed.
 
 Lemma is_nil_true {A} (l:list A) : is_nil l = true -> l = [].
@@ -382,3 +382,377 @@ Qed.
 
 End Spec.
 End PE.
+
+(** * Proof terms *)
+(** the checker's [Instantiate] computes what the generator's [instantiate] advertised
+    (fails on: metavariable constraints violated by a plug -- D9d; a substitution the generator
+    dropped or applied without the checker's capture check -- D9c/D9d) *)
+Definition inst_agree (c:pat) (d:delta) : bool :=
+  match inst G c (rev (dkeys d)) (rev (dvals d)) with
+  | Some r => pat_eqb r (py_inst d c)
+  | None => false
+  end.
+
+(** exactly the places where the generator is laxer than the checker *)
+Fixpoint wf_for_checker (axs:list pat) (t:pterm) : bool :=
+  match t with
+  | PMP a b => wf_for_checker axs a && wf_for_checker axs b
+  | PGen a _ => wf_for_checker axs a
+  | PDynInst a d =>
+      wf_for_checker axs a &&
+      match d with
+      | [] => true
+      | _ => forallb pat_wf (dvals d) &&
+             match static_conc axs a with Some c => inst_agree c d | None => false end
+      end
+  | PInst a _ => wf_for_checker axs a
+  | _ => true
+  end.
+
+Lemma nlen_rev_keys (d:delta) : nlen d = nlen (rev (dkeys d)).
+Proof. unfold nlen, dkeys. rewrite rev_length, map_length. reflexivity. Qed.
+Lemma len_plugs_ids {A} (f:pat -> A) (d:delta) : length (map f (rev (dvals d))) = length (rev (dkeys d)).
+Proof. unfold dkeys, dvals. rewrite map_length, !rev_length, !map_length. reflexivity. Qed.
+Lemma rev_map_tpat (f:pat -> pat) (l:list pat) : rev (map (fun p => TPat (f p)) l) = map TPat (map f (rev l)).
+Proof. rewrite map_map, map_rev. reflexivity. Qed.
+
+Section TE.
+Variable inS : pat -> bool.
+Variable loads : bool.
+Variable instopt : bool.
+Variable axs : list pat.
+Variable T : symtab.
+Notation ms := (map_sym T).
+Notation mt := (map_term T).
+Notation tcalls' := (tcalls inS loads instopt axs).
+
+Lemma plug_calls_exec d : forall ph mem cs m' tbl s tbl' s' bs K C,
+  plug_calls inS loads d mem = Some (cs, m') -> s_mem s = mem -> ser_run cs tbl s = Some (tbl', s', bs) ->
+  forallb pat_wf (dvals d) = true -> ext T tbl' ->
+  runs ph bs (mkst K (map mt mem) C) (mkst (rev (map (fun p => TPat (ms p)) (dvals d)) ++ K) (map mt m') C).
+Proof.
+  induction d as [|[k p] d IH]; intros ph mem cs m' tbl s tbl' s' bs K C H EM R W X; simpl in H.
+  - inversion H; subst. simpl in R. inversion R; subst. apply runs_nil.
+  - destruct (pcalls inS loads p mem) as [[c1 m1]|] eqn:E1; [|discriminate].
+    destruct (plug_calls inS loads d m1) as [[c2 m2]|] eqn:E2; [|discriminate]. inversion H; subst cs m'; clear H.
+    apply ser_run_app_inv in R as (t1 & s1 & b1 & b2 & R1 & R2 & ->).
+    pose proof (pcalls_ser_mem _ _ _ _ _ _ _ _ _ _ _ E1 EM R1) as S1.
+    simpl in W. apply andb_true_iff in W as [W1 W2].
+    eapply runs_app.
+    + eapply (pcalls_exec inS loads T p ph mem); try eassumption.
+      eapply ext_trans; [exact X | eapply ser_run_ext; exact R2].
+    + simpl. rewrite <- app_assoc. simpl.
+      eapply (IH ph m1); try eassumption. subst s1; reflexivity.
+Qed.
+
+Lemma ms_prop1 : ms py_prop1 = py_prop1. Proof. reflexivity. Qed.
+Lemma ms_prop2 : ms py_prop2 = py_prop2. Proof. reflexivity. Qed.
+Lemma ms_prop3 : ms py_prop3 = py_prop3. Proof. reflexivity. Qed.
+Lemma ms_quant : ms py_quant = py_quant. Proof. reflexivity. Qed.
+
+Lemma tcalls_ser_state t mem cs c m' tbl s t1 s1 b1 :
+  dynamic t = true -> mem_shape_ok mem -> loads_ok t mem = true ->
+  tcalls' t mem = Some (cs, c, m') -> s_mem s = mem -> ser_run cs tbl s = Some (t1, s1, b1) ->
+  s1 = mksst (TProved c :: s_stack s) m' (s_claims s) (s_phase s).
+Proof.
+  intros Hd Hm Hl H E R. subst mem. apply ser_run_st in R.
+  rewrite (tcalls_st inS loads instopt axs t s cs c m' Hd Hm Hl H) in R. congruence.
+Qed.
+
+Lemma tcalls_exec t : forall ph mem cs c m' tbl s tbl' s' bs K C,
+  dynamic t = true -> wf_for_checker axs t = true -> mem_shape_ok mem -> loads_ok t mem = true ->
+  tcalls' t mem = Some (cs, c, m') -> s_mem s = mem -> ser_run cs tbl s = Some (tbl', s', bs) -> ext T tbl' ->
+  runs ph bs (mkst K (map mt mem) C) (mkst (TProved (ms c) :: K) (map mt m') C).
+Proof.
+  induction t as [| | | |a IHa b IHb|a IHa x|a IHa d|a IHa d|p];
+    intros ph mem cs c m' tbl s tbl' s' bs K C Hd W Hm Hl H EM R X;
+    pose proof H as H0; apply tcalls_inv in H as [HS HB]; simpl in HB, Hd, Hl, W.
+  - inversion HB; subst. apply ser_run_one in R as [_ R]. simpl in R. inversion R; subst. apply run_prop1.
+  - inversion HB; subst. apply ser_run_one in R as [_ R]. simpl in R. inversion R; subst. apply run_prop2.
+  - inversion HB; subst. apply ser_run_one in R as [_ R]. simpl in R. inversion R; subst. apply run_prop3.
+  - inversion HB; subst. apply ser_run_one in R as [_ R]. simpl in R. inversion R; subst. apply run_quant.
+  - (* MP *)
+    apply andb_true_iff in Hd as [Hd1 Hd2]. apply andb_true_iff in Hl as [Hl1 Hl2]. apply andb_true_iff in W as [W1 W2].
+    destruct (tcalls' a mem) as [[[ca pa] m1]|] eqn:E1; [|discriminate].
+    destruct (tcalls_sound _ _ _ _ a _ _ _ _ Hm E1) as (_ & M1 & (x1 & X1)).
+    destruct (tcalls' b m1) as [[[cb pb] m2]|] eqn:E2; [|discriminate].
+    destruct pa as [| | |l r| | | | | |]; try discriminate.
+    destruct (pat_eqb l pb) eqn:EQ; [|discriminate]. apply pat_eqb_eq in EQ. subst pb.
+    inversion HB; subst cs c m'; clear HB.
+    apply ser_run_app_inv in R as (t1 & s1 & b1 & b' & R1 & R & ->).
+    apply ser_run_app_inv in R as (t2 & s2 & b2 & b3 & R2 & R3 & ->).
+    pose proof (tcalls_ser_state _ _ _ _ _ _ _ _ _ _ Hd1 Hm Hl1 E1 EM R1) as S1.
+    apply ser_run_one in R3 as [_ R3]. simpl in R3. inversion R3; subst tbl' b3; clear R3.
+    eapply runs_app; [eapply (IHa ph mem); try eassumption; eapply ext_trans; [exact X | eapply ser_run_ext; exact R2]|].
+    eapply runs_app.
+    + eapply (IHb ph m1); try eassumption; [subst m1; apply loads_ok_app; exact Hl2 | subst s1; reflexivity].
+    + simpl. apply run_mp.
+  - (* Gen *)
+    destruct (tcalls' a mem) as [[[ca pa] m1]|] eqn:E1; [|discriminate].
+    destruct pa as [| | |l r| | | | | |]; try discriminate.
+    destruct (e_fresh r x) eqn:EF; [|discriminate]. inversion HB; subst cs c m'; clear HB.
+    apply ser_run_app_inv in R as (t1 & s1 & b1 & b3 & R1 & R3 & ->).
+    apply ser_run_one in R3 as [_ R3]. simpl in R3. inversion R3; subst tbl' b3; clear R3.
+    eapply runs_app; [eapply (IHa ph mem); eassumption|].
+    simpl. apply run_gen. rewrite ms_e_fresh. exact EF.
+  - (* DynInst *)
+    apply andb_true_iff in W as [W1 W2].
+    destruct d as [|kp d].
+    + eapply IHa; eassumption.
+    + apply andb_true_iff in W2 as [W2 W3].
+      destruct (plug_calls inS loads (kp :: d) mem) as [[cp m1]|] eqn:EP; [|discriminate].
+      pose proof (plug_calls_shape _ _ _ _ _ _ Hm EP) as SP.
+      assert (MX : mem_shape_ok m1 /\ exists e, m1 = mem ++ e)
+        by (destruct (plug_calls_ok inS loads (kp :: d) mem Hm SP) as (a' & b' & E' & M & Y); rewrite EP in E'; inversion E'; subst; auto).
+      destruct MX as (M1 & (x1 & X1)).
+      destruct (tcalls' a m1) as [[[ca pa] m2]|] eqn:E1; [|discriminate]. inversion HB; subst cs c m'; clear HB.
+      apply ser_run_app_inv in R as (t1 & s1 & b1 & b' & R1 & R & ->).
+      apply ser_run_app_inv in R as (t2 & s2 & b2 & b3 & R2 & R3 & ->).
+      assert (S1 : s_mem s1 = m1).
+      { subst mem. apply ser_run_st in R1. rewrite (plug_calls_st inS loads _ s _ _ EP) in R1. inversion R1. reflexivity. }
+      apply ser_run_one in R3 as [_ R3]. simpl in R3. inversion R3; subst tbl' b3; clear R3.
+      destruct (tcalls_inv _ _ _ _ _ _ _ _ _ E1) as [HSa _]. rewrite HSa in W3.
+      unfold inst_agree in W3.
+      destruct (inst G pa (rev (dkeys (kp :: d))) (rev (dvals (kp :: d)))) as [r|] eqn:EI; [|discriminate].
+      apply pat_eqb_eq in W3. subst r.
+      eapply runs_app; [eapply (plug_calls_exec (kp :: d) ph mem); try eassumption;
+                        eapply ext_trans; [exact X | eapply ser_run_ext; exact R2]|].
+      eapply runs_app.
+      * eapply (IHa ph m1); try eassumption. subst m1; apply loads_ok_app; exact Hl.
+      * change (rev (dkeys d) ++ [fst kp]) with (rev (dkeys (kp :: d))).
+        rewrite (nlen_rev_keys (kp :: d)), (rev_map_tpat ms (dvals (kp :: d))).
+        apply run_inst; [apply len_plugs_ids | rewrite ms_inst, EI; reflexivity].
+  - discriminate.
+  - (* LoadAxiom *)
+    inversion HB; subst cs c m'; clear HB. apply ser_run_one in R as [R1 R2].
+    rewrite (st_step_mem _ _ _ R1) in R2. simpl in R2. rewrite EM in R2.
+    destruct (tindex (TProved p) mem) as [i|] eqn:EI; [|discriminate]. inversion R2; subst.
+    apply (run_load ph K _ C i (mt (TProved p))). apply tindex_nth. exact EI.
+Qed.
+
+End TE.
+
+(** * C02, part 1: stack-compiler correctness for one proof term *)
+Theorem compile_correct ls axs t tbl s tbl' s' bs c :
+  dynamic t = true -> wf_for_checker axs t = true ->
+  mem_shape_ok (s_mem s) -> loads_ok t (s_mem s) = true ->
+  compile ls axs t tbl s = Some (tbl', s', bs, c) ->
+  static_conc axs t = Some c /\
+  forall T, ext T tbl' -> forall ph K C,
+    exec G ph bs (mkst K (map (map_term T) (s_mem s)) C)
+    = Some (mkst (TProved (map_sym T c) :: K) (map (map_term T) (s_mem s')) C).
+Proof.
+  intros Hd W Hm Hl H. unfold compile, stack_calls in H.
+  destruct (tcalls (cfg_inS ls) (cfg_loads BSerializing ls) (cfg_instopt ls) axs t (s_mem s)) as [[[cs c0] m']|] eqn:E; [|discriminate].
+  destruct (ser_run cs tbl s) as [[[t1 s1] b1]|] eqn:R; [|discriminate]. inversion H; subst; clear H.
+  split; [apply (tcalls_inv _ _ _ _ _ _ _ _ _ E)|].
+  intros T X ph K C. apply runs_exec.
+  pose proof (tcalls_ser_state _ _ _ _ _ _ _ _ _ _ _ _ _ _ Hd Hm Hl E eq_refl R) as S1.
+  replace (s_mem s') with m' by (subst s'; reflexivity).
+  eapply tcalls_exec; try eassumption. reflexivity.
+Qed.
+
+(** * C02, part 2: whole modules *)
+Lemma run_pub_gamma K M C p : runs Gamma [30] (mkst (TPat p :: K) M C) (mkst K (M ++ [TProved p]) C).
+Proof. one_step. Qed.
+Lemma run_pub_claim K M C p : runs Claim [30] (mkst (TPat p :: K) M C) (mkst K M (p :: C)).
+Proof. one_step. Qed.
+Lemma run_pub_proof K M C p : runs Proof [30] (mkst (TProved p :: K) M (p :: C)) (mkst K M C).
+Proof. intros rest. simpl app. rewrite exec_cons. unfold step. simpl. rewrite pat_eqb_refl. reflexivity. Qed.
+
+Fixpoint loads_in_axioms (t:pterm) (axs:list pat) : bool :=
+  match t with
+  | PMP a b => loads_in_axioms a axs && loads_in_axioms b axs
+  | PGen a _ | PDynInst a _ | PInst a _ => loads_in_axioms a axs
+  | PLoadAxiom p => pmem p axs
+  | _ => true
+  end.
+
+Lemma loads_in_axioms_ok t axs mem : (forall a, In a axs -> In (TProved a) mem) ->
+  loads_in_axioms t axs = true -> loads_ok t mem = true.
+Proof.
+  intros HA. induction t as [| | | |a IHa b IHb|a IHa x|a IHa d|a IHa d|p]; simpl; intros H; auto.
+  - apply andb_true_iff in H as [H1 H2]. rewrite IHa, IHb; auto.
+  - apply tmem_In. apply HA. apply pmem_In. exact H.
+Qed.
+
+Local Opaque term_eqb.
+
+Section ME.
+Variable inS : pat -> bool.
+Variable loads : bool.
+Variable T : symtab.
+Notation ms := (map_sym T).
+Notation mt := (map_term T).
+
+Lemma mem_shape_ok_proved mem a : mem_shape_ok mem -> mem_shape_ok (mem ++ [TProved a]).
+Proof. intros H q Hq. apply in_app_or in Hq as [Hq|[Hq|[]]]; [apply H; exact Hq | discriminate]. Qed.
+
+Lemma pcalls_mem_ok p mem cs m' : mem_shape_ok mem -> pcalls inS loads p mem = Some (cs, m') ->
+  mem_shape_ok m' /\ exists e, m' = mem ++ e.
+Proof.
+  intros Hm H. pose proof (pcalls_shape inS loads p mem cs m' Hm H) as S.
+  destruct (pcalls_ok inS loads p mem Hm S) as (a & b & E & M & X). rewrite H in E. inversion E; subst. auto.
+Qed.
+
+Lemma gamma_exec axs : forall mem cs m' tbl s tbl' s' bs K C,
+  gamma_calls inS loads axs mem = Some (cs, m') -> s_mem s = mem -> s_phase s = Gamma ->
+  ser_run cs tbl s = Some (tbl', s', bs) -> forallb pat_wf axs = true -> mem_shape_ok mem -> ext T tbl' ->
+  runs Gamma bs (mkst K (map mt mem) C) (mkst K (map mt m') C)
+  /\ s_mem s' = m' /\ s_claims s' = s_claims s /\ mem_shape_ok m'
+  /\ (forall a, In a axs \/ In (TProved a) mem -> In (TProved a) m').
+Proof.
+  induction axs as [|a axs IH]; intros mem cs m' tbl s tbl' s' bs K C H EM EP R W Hm X; simpl in H.
+  - inversion H; subst. simpl in R. inversion R; subst. split; [apply runs_nil|].
+    repeat split; auto. intros a [[]|Ha]; exact Ha.
+  - destruct (pcalls inS loads a mem) as [[c1 m1]|] eqn:E1; [|discriminate].
+    destruct (gamma_calls inS loads axs (m1 ++ [TProved a])) as [[c2 m2]|] eqn:E2; [|discriminate].
+    inversion H; subst cs m'; clear H.
+    apply ser_run_app_inv in R as (t1 & s1 & b1 & b' & R1 & R & ->).
+    change (CPubAxiom a :: c2) with ([CPubAxiom a] ++ c2) in R.
+    apply ser_run_app_inv in R as (t2 & s2 & b2 & b3 & R2 & R3 & ->).
+    pose proof (pcalls_ser_mem _ _ _ _ _ _ _ _ _ _ _ E1 EM R1) as S1.
+    destruct (pcalls_mem_ok _ _ _ _ Hm E1) as (M1 & (e1 & X1)).
+    apply ser_run_one in R2 as [R2s R2e]. simpl in R2e. inversion R2e; subst t2 b2; clear R2e.
+    assert (S2 : s2 = mksst (TPat a :: s_stack s) (m1 ++ [TProved a]) (s_claims s) Gamma).
+    { subst s1. simpl in R2s. rewrite EP in R2s. rewrite term_eqb_refl in R2s. inversion R2s. reflexivity. }
+    simpl in W. apply andb_true_iff in W as [W1 W2].
+    destruct (IH (m1 ++ [TProved a]) c2 m2 t1 s2 tbl' s' b3 K C E2) as (Q1 & Q2 & Q3 & Q4 & Q5);
+      try assumption; try (subst s2; reflexivity); [apply mem_shape_ok_proved; exact M1|].
+    split.
+    + eapply runs_app; [eapply (pcalls_exec inS loads T a Gamma mem); try eassumption;
+                        eapply ext_trans; [exact X | eapply ser_run_ext; exact R3]|].
+      eapply runs_app; [apply run_pub_gamma|].
+      replace (map mt m1 ++ [TProved (ms a)]) with (map mt (m1 ++ [TProved a])) by (rewrite map_app; reflexivity).
+      exact Q1.
+    + split; [exact Q2|]. split; [rewrite Q3; subst s2; reflexivity|]. split; [exact Q4|].
+      intros a0 [[->|Ha]|Ha]; apply Q5.
+      * right. apply in_or_app. right. left. reflexivity.
+      * left. exact Ha.
+      * right. subst m1. apply in_or_app. left. apply in_or_app. left. exact Ha.
+Qed.
+
+Lemma claim_exec cls : forall mem cs m' tbl s tbl' s' bs K C,
+  claim_calls inS loads cls mem = Some (cs, m') -> s_mem s = mem -> s_phase s = Claim ->
+  ser_run cs tbl s = Some (tbl', s', bs) -> forallb pat_wf cls = true -> mem_shape_ok mem -> ext T tbl' ->
+  runs Claim bs (mkst K (map mt mem) C) (mkst K (map mt m') (rev (map ms cls) ++ C))
+  /\ s_mem s' = m' /\ s_claims s' = s_claims s /\ mem_shape_ok m' /\ (exists e, m' = mem ++ e).
+Proof.
+  induction cls as [|a cls IH]; intros mem cs m' tbl s tbl' s' bs K C H EM EP R W Hm X; simpl in H.
+  - inversion H; subst. simpl in R. inversion R; subst. split; [apply runs_nil|].
+    repeat split; auto. exists []. rewrite app_nil_r. reflexivity.
+  - destruct (pcalls inS loads a mem) as [[c1 m1]|] eqn:E1; [|discriminate].
+    destruct (claim_calls inS loads cls m1) as [[c2 m2]|] eqn:E2; [|discriminate].
+    inversion H; subst cs m'; clear H.
+    apply ser_run_app_inv in R as (t1 & s1 & b1 & b' & R1 & R & ->).
+    change (CPubClaim a :: c2) with ([CPubClaim a] ++ c2) in R.
+    apply ser_run_app_inv in R as (t2 & s2 & b2 & b3 & R2 & R3 & ->).
+    pose proof (pcalls_ser_mem _ _ _ _ _ _ _ _ _ _ _ E1 EM R1) as S1.
+    destruct (pcalls_mem_ok _ _ _ _ Hm E1) as (M1 & (e1 & X1)).
+    apply ser_run_one in R2 as [R2s R2e]. simpl in R2e. inversion R2e; subst t2 b2; clear R2e.
+    assert (S2 : s2 = s1).
+    { subst s1. simpl in R2s. rewrite EP in R2s. rewrite term_eqb_refl in R2s. inversion R2s. rewrite EP. reflexivity. }
+    simpl in W. apply andb_true_iff in W as [W1 W2].
+    destruct (IH m1 c2 m2 t1 s2 tbl' s' b3 K (ms a :: C) E2) as (Q1 & Q2 & Q3 & Q4 & (e2 & Q5));
+      try assumption; try (subst s2 s1; simpl; first [reflexivity | exact EP]).
+    split.
+    + eapply runs_app; [eapply (pcalls_exec inS loads T a Claim mem); try eassumption;
+                        eapply ext_trans; [exact X | eapply ser_run_ext; exact R3]|].
+      eapply runs_app; [apply run_pub_claim|].
+      simpl. rewrite <- app_assoc. exact Q1.
+    + split; [exact Q2|]. split; [rewrite Q3; subst s2 s1; reflexivity|]. split; [exact Q4|].
+      exists (e1 ++ e2). rewrite Q5, X1, app_assoc. reflexivity.
+Qed.
+
+Variable axs : list pat.
+
+Definition proof_ok (t:pterm) : bool := dynamic t && wf_for_checker axs t && loads_in_axioms t axs.
+
+Lemma proof_exec ts : forall mem cs m' tbl s tbl' s' bs K,
+  proof_calls inS loads false axs ts mem = Some (cs, m') -> s_mem s = mem -> s_phase s = Proof ->
+  ser_run cs tbl s = Some (tbl', s', bs) -> forallb proof_ok ts = true -> mem_shape_ok mem ->
+  (forall a, In a axs -> In (TProved a) mem) -> ext T tbl' ->
+  runs Proof bs (mkst K (map mt mem) (map ms (s_claims s))) (mkst K (map mt m') (map ms (s_claims s')))
+  /\ s_claims s' = skipn (length ts) (s_claims s).
+Proof.
+  induction ts as [|t ts IH]; intros mem cs m' tbl s tbl' s' bs K H EM EP R W Hm HA X; simpl in H.
+  - inversion H; subst. simpl in R. inversion R; subst. split; [apply runs_nil | reflexivity].
+  - destruct (tcalls inS loads false axs t mem) as [[[c1 c] m1]|] eqn:E1; [|discriminate].
+    destruct (proof_calls inS loads false axs ts m1) as [[c2 m2]|] eqn:E2; [|discriminate].
+    inversion H; subst cs m'; clear H.
+    simpl in W. apply andb_true_iff in W as [W1 W2]. unfold proof_ok in W1.
+    apply andb_true_iff in W1 as [W1 W1c]. apply andb_true_iff in W1 as [W1a W1b].
+    pose proof (loads_in_axioms_ok t axs mem HA W1c) as Hl.
+    apply ser_run_app_inv in R as (t1 & s1 & b1 & b' & R1 & R & ->).
+    change (CPubProof c :: c2) with ([CPubProof c] ++ c2) in R.
+    apply ser_run_app_inv in R as (t2 & s2 & b2 & b3 & R2 & R3 & ->).
+    pose proof (tcalls_ser_state _ _ _ _ _ _ _ _ _ _ _ _ _ _ W1a Hm Hl E1 EM R1) as S1.
+    destruct (tcalls_sound _ _ _ _ t _ _ _ _ Hm E1) as (_ & M1 & (e1 & X1)).
+    apply ser_run_one in R2 as [R2s R2e]. simpl in R2e. inversion R2e; subst t2 b2; clear R2e.
+    assert (S2 : exists cls, s_claims s = c :: cls /\ s2 = mksst (TProved c :: s_stack s) m1 cls Proof).
+    { subst s1. simpl in R2s. rewrite EP in R2s. destruct (s_claims s) as [|cl cls]; [discriminate|].
+      destruct (pat_eqb c cl && term_eqb (TProved c) (TProved c)) eqn:EQ; [|discriminate].
+      apply andb_true_iff in EQ as [EQ _]. apply pat_eqb_eq in EQ. subst cl. inversion R2s. eexists; split; reflexivity. }
+    destruct S2 as (cls & SC & S2).
+    destruct (IH m1 c2 m2 t1 s2 tbl' s' b3 K E2) as (Q1 & Q2); try assumption; try (subst s2; reflexivity).
+    { intros a Ha. subst m1. apply in_or_app. left. apply HA. exact Ha. }
+    split.
+    + eapply runs_app; [eapply (tcalls_exec inS loads false axs T t Proof mem); try eassumption;
+                        eapply ext_trans; [exact X | eapply ser_run_ext; exact R3]|].
+      rewrite SC. simpl map. eapply runs_app; [apply run_pub_proof|].
+      replace cls with (s_claims s2) by (subst s2; reflexivity). exact Q1.
+    + rewrite Q2, SC. subst s2. reflexivity.
+Qed.
+
+End ME.
+
+Definition module_ok (m:pmodule) : bool :=
+  forallb pat_wf (m_axioms m) && forallb pat_wf (m_claims m) &&
+  forallb (proof_ok (m_axioms m)) (m_proofs m) &&
+  Nat.eqb (length (m_claims m)) (length (m_proofs m)).      (* every declared claim is discharged *)
+
+Lemma serialize_with_accepted inS loads m g c p :
+  module_ok m = true -> serialize_with inS loads m = Some (g, c, p) ->
+  exists st, verify G g c p = Some st.
+Proof.
+  intros OK H. unfold module_ok in OK.
+  apply andb_true_iff in OK as [OK O4]. apply andb_true_iff in OK as [OK O3]. apply andb_true_iff in OK as [O1 O2].
+  apply Nat.eqb_eq in O4.
+  unfold serialize_with in H.
+  destruct (gamma_calls inS loads (m_axioms m) []) as [[cg mg]|] eqn:EG; [|discriminate].
+  destruct (ser_run cg [] (sinit m)) as [[[t1 s1] bg]|] eqn:RG; [|discriminate].
+  destruct (claim_calls inS loads (rev (m_claims m)) mg) as [[cc mc]|] eqn:EC; [|discriminate].
+  destruct (ser_run cc t1 (next_phase Claim s1)) as [[[t2 s2] bc]|] eqn:RC; [|discriminate].
+  destruct (proof_calls inS loads false (m_axioms m) (m_proofs m) mc) as [[cp mp]|] eqn:EP; [|discriminate].
+  destruct (ser_run cp t2 (next_phase Proof s2)) as [[[t3 s3] bp]|] eqn:RP; [|discriminate].
+  inversion H; subst g c p; clear H.
+  assert (X3 : ext t3 t3) by apply ext_refl.
+  assert (X2 : ext t3 t2) by (eapply ser_run_ext; exact RP).
+  assert (X1 : ext t3 t1) by (eapply ext_trans; [exact X2 | eapply ser_run_ext; exact RC]).
+  destruct (gamma_exec inS loads t3 (m_axioms m) [] cg mg [] (sinit m) t1 s1 bg [] [] EG eq_refl eq_refl RG O1 mem_shape_ok_nil X1)
+    as (G1 & G2 & G3 & G4 & G5).
+  assert (W2 : forallb pat_wf (rev (m_claims m)) = true).
+  { rewrite forallb_forall in *. intros x Hx. apply O2. apply in_rev. exact Hx. }
+  destruct (claim_exec inS loads t3 (rev (m_claims m)) mg cc mc t1 (next_phase Claim s1) t2 s2 bc [] []
+              EC G2 eq_refl RC W2 G4 X2) as (C1 & C2 & C3 & C4 & (e & C5)).
+  destruct (proof_exec inS loads t3 (m_axioms m) (m_proofs m) mc cp mp t2 (next_phase Proof s2) t3 s3 bp []
+              EP C2 eq_refl RP O3 C4) as (P1 & P2); [|exact X3|].
+  { intros a Ha. rewrite C5. apply in_or_app. left. apply G5. left. exact Ha. }
+  unfold verify.
+  change st0 with (mkst [] (map (map_term t3) []) []).
+  rewrite (runs_exec _ _ _ _ G1). unfold set_stack. cbn [stack memory claims].
+  rewrite (runs_exec _ _ _ _ C1). cbn [stack memory claims].
+  assert (CL : rev (map (map_sym t3) (rev (m_claims m))) ++ [] = map (map_sym t3) (s_claims (next_phase Proof s2))).
+  { rewrite app_nil_r, map_rev, rev_involutive. simpl. rewrite C3. simpl. rewrite G3. reflexivity. }
+  rewrite CL. rewrite (runs_exec _ _ _ _ P1). cbn [claims].
+  rewrite P2. simpl s_claims. rewrite C3. simpl s_claims. rewrite G3. simpl s_claims.
+  rewrite <- O4, skipn_all. simpl. eexists; reflexivity.
+Qed.
+
+Theorem module_accepted memo m g c p :
+  module_ok m = true -> serialize memo m = Some (g, c, p) -> exists st, verify G g c p = Some st.
+Proof.
+  intros OK H. destruct memo as [ms|]; simpl in H.
+  - destruct (count_module m); [|discriminate]. eapply serialize_with_accepted; eassumption.
+  - eapply serialize_with_accepted; eassumption.
+Qed.
